@@ -226,6 +226,7 @@ func c20MapsPerm(addr uintptr) string {
 func c20RunAcquire(ci interface{}, s *vkit.Stats) error {
 	c := ci.(*c20AcqCase)
 	lo, hi := placeHolderIns.min, placeHolderIns.max
+	var held []*Space
 	for i, n64 := range c.Sizes {
 		n := int(n64)
 		sp, err := Acquire(n)
@@ -261,6 +262,10 @@ func c20RunAcquire(ci interface{}, s *vkit.Stats) error {
 		}
 		c20Global = append(c20Global, r)
 		if r.Len >= 6 {
+			held = append(held, sp)
+			if len(c.Sizes)%2 == 0 {
+				continue // first use of the regions of this case after all of them were handed out, last one first (below)
+			}
 			if err := c20Exec(sp, uint32(0xACC00000+i)); err != nil {
 				return err
 			}
@@ -276,6 +281,48 @@ func c20RunAcquire(ci interface{}, s *vkit.Stats) error {
 				return fmt.Errorf("write of %d bytes at %#x does not read back", len(data), sp.Addr)
 			}
 		}
+	}
+	// every region handed out stays usable in any order: the regions of this case are written once more from the last
+	// to the first, then the odd ones, each write reading back while the others keep what was written to them last
+	if len(c.Sizes)%2 == 0 {
+		for k := len(held) - 1; k >= 0; k-- {
+			if err := c20Exec(held[k], uint32(0xACD00000+k)); err != nil {
+				return err
+			}
+		}
+		s.Class("regions-first-used-after-all-were-handed-out-in-reverse")
+	}
+	if len(held) >= 2 {
+		want := make([][]byte, len(held))
+		fill := func(k int, tag byte) error {
+			sp := held[k]
+			n := len(*sp.Space)
+			if n > 4096 {
+				n = 4096
+			}
+			data := bytes.Repeat([]byte{tag, byte(k), 0xC3}, n/3+1)[:n]
+			if err := Write(sp, data); err != nil {
+				return fmt.Errorf("re-write of region %d (%d bytes at %#x) out of hand-out order: %v", k, n, sp.Addr, err)
+			}
+			want[k] = data
+			return nil
+		}
+		for k := len(held) - 1; k >= 0; k-- {
+			if err := fill(k, 0xA0); err != nil {
+				return err
+			}
+		}
+		for k := 1; k < len(held); k += 2 {
+			if err := fill(k, 0xB0); err != nil {
+				return err
+			}
+		}
+		for k, sp := range held {
+			if !bytes.Equal((*sp.Space)[:len(want[k])], want[k]) {
+				return fmt.Errorf("region %d at %#x no longer holds what was written to it last (another region's write reached it)", k, sp.Addr)
+			}
+		}
+		s.Class("regions-rewritten-out-of-hand-out-order")
 	}
 	if err := c20Disjoint(c20Global); err != nil {
 		return err
@@ -367,6 +414,16 @@ func c20Parent(t *testing.T) {
 			s.Class("child-rounds-ok")
 			s.NonTrivial(fmt.Sprint("child", g, r))
 			s.Sample(strings.SplitN(txt[i:], "\n", 2)[0])
+		case strings.Contains(txt, "C20CHILD PHASE write"):
+			i := strings.Index(txt, "C20CHILD PHASE write")
+			lines := strings.Split(txt[i:], "\n")
+			if len(lines) > 8 {
+				lines = lines[:8]
+			}
+			msg := "the child died while writing its fallback regions through stub.Write, highest address first (limit already lifted): " + strings.Join(lines[1:], " | ")
+			s.Violation("with the mmap path failing (RLIMIT_AS): "+msg, map[string]interface{}{"child_goroutines": g})
+			t.Errorf("%s", msg)
+			return
 		default:
 			// the limit also starves the Go runtime: not a statement about goom
 			s.Exclude("child-died-under-rlimit")
@@ -422,6 +479,7 @@ func c20Child(t *testing.T) {
 	lo, hi := placeHolderIns.min, placeHolderIns.max
 	var mu sync.Mutex
 	var all []c20Region
+	var holders []*Space
 	var viol atomic.Value
 	var ready, goFlag int32
 	var wg sync.WaitGroup
@@ -431,6 +489,7 @@ func c20Child(t *testing.T) {
 		go func(k int) {
 			defer wg.Done()
 			local := make([]c20Region, 0, 4096)
+			mine := make([]*Space, 0, 512)
 			atomic.AddInt32(&ready, 1)
 			for atomic.LoadInt32(&goFlag) == 0 {
 			}
@@ -444,6 +503,7 @@ func c20Child(t *testing.T) {
 				}
 				if sp.typ == TypeHolder {
 					atomic.AddInt32(&fallback, 1)
+					mine = append(mine, sp)
 					if sp.Addr < lo || sp.Addr+uintptr(len(*sp.Space)) > hi {
 						viol.Store(fmt.Sprintf("fallback region [%#x,+%d) outside the reserve", sp.Addr, len(*sp.Space)))
 						return
@@ -457,6 +517,7 @@ func c20Child(t *testing.T) {
 			}
 			mu.Lock()
 			all = append(all, local...)
+			holders = append(holders, mine...)
 			mu.Unlock()
 		}(k)
 	}
@@ -473,6 +534,24 @@ func c20Child(t *testing.T) {
 	if err := c20Disjoint(all); err != nil {
 		fmt.Println("C20CHILD VIOLATION", err)
 		return
+	}
+	// every fallback region is writable through the provided writer, whatever the order of first use: highest address
+	// first, each region with a pattern of its own, then all of them read back (the address-space limit is lifted again:
+	// a death from here on is not the runtime starving)
+	fmt.Println("C20CHILD PHASE write")
+	sort.Slice(holders, func(i, j int) bool { return holders[i].Addr > holders[j].Addr })
+	pat := func(k, n int) []byte { return bytes.Repeat([]byte{byte(k), byte(k >> 8), 0xC3}, n/3+1)[:n] }
+	for k, sp := range holders {
+		if err := Write(sp, pat(k, len(*sp.Space))); err != nil {
+			fmt.Println("C20CHILD VIOLATION", fmt.Sprintf("Write to fallback region [%#x,+%d): %v", sp.Addr, len(*sp.Space), err))
+			return
+		}
+	}
+	for k, sp := range holders {
+		if !bytes.Equal(*sp.Space, pat(k, len(*sp.Space))) {
+			fmt.Println("C20CHILD VIOLATION", fmt.Sprintf("fallback region [%#x,+%d) does not hold what was written to it (another region's write reached it)", sp.Addr, len(*sp.Space)))
+			return
+		}
 	}
 	fmt.Printf("C20CHILD OK goroutines=%d regions=%d via-fallback=%d\n", g, len(all), fallback)
 }
